@@ -3,6 +3,7 @@
    buffer as state, copy_line, the blanking of the buffer tail, record handlers reading at fixed columns).
    Proofs: Pdb/Hy36Proofs.v, Pdb/RecordsProofs.v. *)
 From GV Require Import Base.Str Pdb.Hy36 Pdb.Records Pdb.Hy36Proofs Pdb.RecordsProofs.
+From GV Require Import Pdb.AtomLine Pdb.AtomLineProofs Pdb.AtomFmt_gen Pdb.AtomFmt Pdb.Cryst1.
 Local Open Scope Z_scope.
 
 (* atom serial numbers: the whole hybrid-36 range survives its 5-column field, whatever follows the field *)
@@ -22,7 +23,7 @@ Theorem C06_charge_roundtrip : forall q, -9 <= q <= 9 ->
 Proof. exact charge_roundtrip. Qed.
 Print Assumptions C06_charge_roundtrip.
 
-Theorem C06_altloc_roundtrip : forall a, a <> 32 -> read_altloc (write_altloc a) = a.
+Theorem C06_altloc_roundtrip : forall a, a <> 32 -> ~ (97 <= a <= 122) -> read_altloc (write_altloc a) = a.
 Proof. exact altloc_roundtrip. Qed.
 Print Assumptions C06_altloc_roundtrip.
 
@@ -65,3 +66,49 @@ Theorem C06_padding_same_buffer_partial : forall c k cr rest size buf1 buf2 b1 l
   norm b1 = norm b2 /\ r1 = r2.
 Proof. exact padding_same_buffer. Qed.
 Print Assumptions C06_padding_same_buffer_partial.
+
+(* ------------------------------------------------------------------------------------------------------------
+   The ATOM / HETATM record (model of the 80 columns written by write_chain_atoms and of the fields
+   read_pdb_from_stream takes from them: Pdb/AtomLine.v, compared with gemmi on every run, command "atomline").
+   For EVERY atom whose fields fit their columns (fits: serial and residue number in the hybrid-36 ranges, names
+   without leading / trailing blanks and no longer than their columns, element symbol of one or two capitals, charge
+   -9..9) and whatever follows the line in the buffer: record name, serial, atom name (with the alignment rule of
+   padded_name), altloc, residue name, chain, residue number, insertion code, segment, element columns and charge
+   are read back exactly, and the three numeric fields come back byte for byte. *)
+Theorem C06_atom_record_roundtrip : forall t xyz occ b rest, fits t xyz occ b ->
+  read_atom (atom_line t xyz occ b ++ rest) 81 =
+  mkRd (t_het t) (t_serial t) (t_name t) (t_altloc t) (t_resname t) (t_chain t) (Some (t_seqnum t), t_icode t)
+       (t_segment t)
+       (Some (match t_el t with [e] => (32, e) | [e1; e2] => (e1, e2) | _ => (0, 0) end))
+       (Some (t_charge t)) xyz occ b.
+Proof. exact atom_line_roundtrip. Qed.
+Print Assumptions C06_atom_record_roundtrip.
+
+(* non-vacuity: HETATM 100000 (hybrid-36 serial A0000), atom HO5' of residue 0PR in chain AA, number -999 with
+   insertion code A, segment "S 1", deuterium, charge -2 *)
+Theorem C06_atom_record_example :
+  fits ex_atom (repeat 49 24) (repeat 50 6) (repeat 51 6) /\
+  firstn 30 (atom_line ex_atom (repeat 49 24) (repeat 50 6) (repeat 51 6)) =
+  [72;69;84;65;84;77;65;48;48;48;48;32;72;79;53;39;66;48;80;82;65;65;45;57;57;57;65;32;32;32].
+Proof. exact ex_atom_fits. Qed.
+Print Assumptions C06_atom_record_example.
+
+(* THE TIE TO THE SOURCE TEXT: the line of the model is what a printf interpreter (Pdb/AtomFmt.v: %[-][w][.p]s, %c,
+   numbers as ready-made texts) produces from the two format strings that gen/extract_atom_fmt.py copies out of
+   write_chain_atoms in src/to_pdb.cpp on every run.  Changing a width, a precision or a blank in the source changes
+   the statement the kernel checks here. *)
+Theorem C06_atom_line_is_source_format : forall t x y z occ b,
+  fmt_line t x y z occ b = Some (atom_line t (x ++ y ++ z) occ b).
+Proof. exact atom_line_is_format. Qed.
+Print Assumptions C06_atom_line_is_source_format.
+
+(* CRYST1: the line produced by the format string of the source from six numeric texts, the space-group name
+   (any tidy name of at most 11 characters; "P 1" when empty) and Z is 80 characters long and is read back exactly *)
+Theorem C06_cryst1_roundtrip : forall a b c al be ga hm z rest,
+  length a = 9%nat -> length b = 9%nat -> length c = 9%nat ->
+  length al = 7%nat -> length be = 7%nat -> length ga = 7%nat ->
+  tidy hm -> (length hm <= 11)%nat -> tidy z -> (length z <= 4)%nat ->
+  exists line, cryst_line [a; b; c; al; be; ga] hm z = Some line /\ length line = 80%nat /\
+    read_cryst (line ++ rest) 81 = ([a; b; c; al; be; ga], match hm with [] => P1 | _ => hm end, z).
+Proof. exact cryst1_roundtrip. Qed.
+Print Assumptions C06_cryst1_roundtrip.
